@@ -51,7 +51,7 @@ func NewTree(tag string) *Tree {
 	if tag == "" {
 		tag = defaultTag
 	}
-	t := &Tree{buffer: NewBuffer(minSize, tag)}
+	t := &Tree{buffer: NewBuffer(verifMinSize(minSize), tag)}
 	t.Reset()
 	return t
 }
@@ -62,7 +62,7 @@ func NewTreePersistent(path string) (*Tree, error) {
 	var err error
 
 	// Open the buffer from disk and set it to the maximum allocated size.
-	t.buffer, err = NewBufferPersistent(path, minSize)
+	t.buffer, err = NewBufferPersistent(path, verifMinSize(minSize))
 	if err != nil {
 		return nil, err
 	}
@@ -147,7 +147,7 @@ func (t *Tree) Reset() {
 	// the data before using it again.
 	Memclr(t.buffer.buf)
 	t.buffer.Reset()
-	t.buffer.AllocateOffset(minSize)
+	t.buffer.AllocateOffset(verifMinSize(minSize))
 	t.data = t.buffer.Bytes()
 	t.stats = TreeStats{}
 	t.nextPage = 1
